@@ -205,7 +205,7 @@ theorem rows_loop (ops : NumOps F) (env : Gen.K19b.sampleGridWT_Env F S) (n : Na
       body y (pts, bits) = match (rowSpec ops env n y bits).2 with
         | some b => .next ((rowSpec ops env n y bits).1, b)
         | none => .ret none)
-    (hlen : ∀ (y : Int) (bits : S), (rowSpec ops env n y bits).1.length = 2 * n) :
+    (hlen : ∀ (y : Int) (bits b : S), (rowSpec ops env n y bits).2 = some b → (rowSpec ops env n y bits).1.length = 2 * n) :
     ∀ (m : Nat) (y : Int) (pts : List F) (bits : S), pts.length = 2 * n →
       match rowsSpec ops env n m y bits with
       | some b => ∃ pts', loop body 1 m y (pts, bits) = .next (pts', b)
@@ -221,7 +221,7 @@ theorem rows_loop (ops : NumOps F) (env : Gen.K19b.sampleGridWT_Env F S) (n : Na
     | none => rfl
     | some b' =>
       simp only []
-      exact ih (y + 1) _ b' (hlen y bits)
+      exact ih (y + 1) _ b' (hlen y bits b' hr)
 
 /-- … followed by `return bits, nil` -/
 theorem rows_final (ops : NumOps F) (env : Gen.K19b.sampleGridWT_Env F S) (n : Nat)
@@ -230,7 +230,7 @@ theorem rows_final (ops : NumOps F) (env : Gen.K19b.sampleGridWT_Env F S) (n : N
       body y (pts, bits) = match (rowSpec ops env n y bits).2 with
         | some b => .next ((rowSpec ops env n y bits).1, b)
         | none => .ret none)
-    (hlen : ∀ (y : Int) (bits : S), (rowSpec ops env n y bits).1.length = 2 * n)
+    (hlen : ∀ (y : Int) (bits b : S), (rowSpec ops env n y bits).2 = some b → (rowSpec ops env n y bits).1.length = 2 * n)
     (m : Nat) (pts : List F) (bits : S) (hl : pts.length = 2 * n) :
     (loop body 1 m 0 (pts, bits)).thenR (fun st => .ok (some st.2)) = .ok (rowsSpec ops env n m 0 bits) := by
   have key := rows_loop ops env n body hbody hlen m 0 pts bits hl
@@ -242,11 +242,11 @@ theorem tripUp_even (n : Nat) : tripUp 0 (((2 * n : Nat)) : Int) 2 = n := by
   rw [tripUp_two]; omega
 
 when_kernel Gzx.Gen.K19b.sampleGridWT in
-/-- **SampleGridWithTransform, Go source to closed form**: for every number type, every environment whose slice callees keep the
-    slice length, and all dimensions, the regenerated function returns `sampleSpec` — in particular it never panics -/
-theorem k_sampleGridWT_eq (ops : NumOps F) (env : Gen.K19b.sampleGridWT_Env F S) (dimX dimY : Int)
-    (hT : ∀ l, (env.transform_TransformPoints l).length = l.length)
-    (hN : ∀ l, (env.GridSampler_checkAndNudgePoints l).2.length = l.length) :
+/-- **SampleGridWithTransform, Go source to closed form** (general form): it suffices that the nudged slice of every row that passes
+    the nudge test has the length of the row (`2·dimensionX`) -/
+theorem k_sampleGridWT_eq_rows (ops : NumOps F) (env : Gen.K19b.sampleGridWT_Env F S) (dimX dimY : Int)
+    (hN : ∀ y, (env.GridSampler_checkAndNudgePoints (env.transform_TransformPoints (centres ops dimX.toNat y))).1 = false →
+      (env.GridSampler_checkAndNudgePoints (env.transform_TransformPoints (centres ops dimX.toNat y))).2.length = 2 * dimX.toNat) :
     Gen.K19b.sampleGridWT ops env dimX dimY = .ok (sampleSpec ops env dimX dimY) := by
   unfold Gen.K19b.sampleGridWT sampleSpec
   by_cases hd : dimX ≤ 0 ∨ dimY ≤ 0
@@ -262,10 +262,13 @@ theorem k_sampleGridWT_eq (ops : NumOps F) (env : Gen.K19b.sampleGridWT_Env F S)
       congr 2; omega
     rw [hmk]
     simp only [tryR_ok]
-    have hlenC : ∀ y, (centres ops dimX.toNat y).length = 2 * dimX.toNat := by intro y; simp [centres]
-    have hlen : ∀ (y : Int) (bits : S), (rowSpec ops env dimX.toNat y bits).1.length = 2 * dimX.toNat := by
-      intro y bits
-      simp only [rowSpec, hN, hT, hlenC]
+    have hlen : ∀ (y : Int) (bits b : S), (rowSpec ops env dimX.toNat y bits).2 = some b →
+        (rowSpec ops env dimX.toNat y bits).1.length = 2 * dimX.toNat := by
+      intro y bits b hb
+      simp only [rowSpec] at hb ⊢
+      cases hn : (env.GridSampler_checkAndNudgePoints (env.transform_TransformPoints (centres ops dimX.toNat y))).1 with
+      | true => rw [hn] at hb; simp at hb
+      | false => exact hN y hn
     rw [show tripUp 0 dimY 1 = dimY.toNat by rw [tripUp_one]; omega]
     rw [rows_final ops env dimX.toNat ?hbody hlen dimY.toNat _ _ (by simp)]
     · intro y pts bits hl
@@ -285,7 +288,7 @@ theorem k_sampleGridWT_eq (ops : NumOps F) (env : Gen.K19b.sampleGridWT_Env F S)
       | false =>
         simp only [Bool.false_eq_true, if_false]
         have hl2 : (env.GridSampler_checkAndNudgePoints (env.transform_TransformPoints (centres ops dimX.toNat y))).2.length =
-            2 * dimX.toNat := by rw [hN, hT, hlenC]
+            2 * dimX.toNat := hN y hn
         have hrd := read_loop ops env _ y dimX.toNat hl2 dimX.toNat 0 bits (by omega)
         have hrd' : loop (fun (x : Int) (st : S) =>
             ((let bits := st
@@ -305,6 +308,18 @@ theorem k_sampleGridWT_eq (ops : NumOps F) (env : Gen.K19b.sampleGridWT_Env F S)
               .next bits) : Ctl S (Option S))) 2 dimX.toNat 0 bits = _ := hrd
         rw [hrd']
         cases readFrom ops env _ y dimX.toNat 0 bits <;> rfl
+
+theorem centres_length (ops : NumOps F) (n : Nat) (y : Int) : (centres ops n y).length = 2 * n := by simp [centres]
+
+when_kernel Gzx.Gen.K19b.sampleGridWT in
+/-- **SampleGridWithTransform, Go source to closed form**: for every number type, every environment whose slice callees keep the
+    slice length (the real ones write in place), and all dimensions, the regenerated function returns `sampleSpec` — in particular
+    it never panics -/
+theorem k_sampleGridWT_eq (ops : NumOps F) (env : Gen.K19b.sampleGridWT_Env F S) (dimX dimY : Int)
+    (hT : ∀ l, (env.transform_TransformPoints l).length = l.length)
+    (hN : ∀ l, (env.GridSampler_checkAndNudgePoints l).2.length = l.length) :
+    Gen.K19b.sampleGridWT ops env dimX dimY = .ok (sampleSpec ops env dimX dimY) :=
+  k_sampleGridWT_eq_rows ops env dimX dimY (fun y _ => by rw [hN, hT, centres_length])
 
 -- non-vacuity: a 2x1 grid on a 2x1 image whose left pixel is dark, identity "transform", no nudging (exact rationals; the matrix
 -- is the list of `Set` calls): cell (0,0) is set, cell (1,0) is not; and a dimension 0 is NotFound
